@@ -198,7 +198,8 @@ fn coordinate_order_descriptor(desc: &str) -> Option<CoordinateOrderDescriptor> 
         });
     }
 
-    if desc.len() != 4 && desc.len() != 8 {
+    // (the designators are ASCII letters: anything else would also upset the slicing below)
+    if !desc.is_ascii() || (desc.len() != 4 && desc.len() != 8) {
         return None;
     }
 
